@@ -489,7 +489,11 @@ class Extractor:
                 found.append((ps, pe, q))
             for cspec in cl_specs:
                 k = cspec['ordinal']
-                if k >= len(found): raise ExtractError('fn %s has no closure argument #%d' % (key, k), fn=key)
+                if k >= len(found):
+                    # a closure spec without a hand-written clause only re-states the closure's own body: when the body
+                    # of the function no longer has that closure there is nothing to annotate (not a lost anchor)
+                    if 'ensures' not in cspec: continue
+                    raise ExtractError('fn %s has no closure argument #%d' % (key, k), fn=key)
                 ps, pe, q = found[k]
                 params = src[ps + 1:pe - 1]
                 body = src[pe:q].strip()
